@@ -220,10 +220,73 @@ pub fn run_stage_emit(base_seed: u64, stage: &Stage, workers: usize, emit: bool)
                             }
                         }
                         other => {
-                            return Err(format!(
-                                "worker {w} died with {other:?} while running index {next} (seed {})",
-                                derive_seed(base_seed, stage.stream, next)
-                            ))
+                            // The worker was taken down while executing index `next`
+                            // (typify overflowed the stack or aborted). Find out where:
+                            // the same seed in a probe process that prints progress marks.
+                            let seed = derive_seed(base_seed, stage.stream, next);
+                            let probe = Command::new(&exe)
+                                .arg("crashprobe")
+                                .arg(focus_name(stage.focus))
+                                .arg(if stage.faults { "1" } else { "0" })
+                                .arg(seed.to_string())
+                                .env("VERIF_TRACE_PROGRESS", "1")
+                                .stdout(Stdio::null())
+                                .stderr(Stdio::piped())
+                                .output()
+                                .map_err(|e| format!("spawn crash probe: {e}"))?;
+                            if probe.status.code() == Some(0) {
+                                return Err(format!(
+                                    "worker {w} died with {other:?} at index {next} (seed {seed}) but the crash does not reproduce in a probe process"
+                                ));
+                            }
+                            let err = String::from_utf8_lossy(&probe.stderr).to_string();
+                            let last = err.lines().rev().find(|l| l.starts_with("PROGRESS ")).unwrap_or("PROGRESS 0 0 1 0").to_string();
+                            let f: Vec<u64> = last.split(' ').skip(1).filter_map(|x| x.parse().ok()).collect();
+                            let (step, phase, clean) = (f.first().copied().unwrap_or(0), f.get(1).copied().unwrap_or(0), f.get(2).copied().unwrap_or(1) == 1);
+                            let phase_name = match phase {
+                                exec::PHASE_CALL => "call",
+                                exec::PHASE_RENDER => "render",
+                                exec::PHASE_INSPECT => "inspect",
+                                exec::PHASE_SNAPSHOT => "snapshot",
+                                _ => "model",
+                            };
+                            let reason = if err.contains("overflowed its stack") { "stack-overflow" } else { "abort" };
+                            let desc = gen::generate(seed, stage.focus, stage.faults);
+                            let mut sum = RunSummary {
+                                index: next,
+                                seed,
+                                shape: desc.shape(),
+                                settings_digest: 0,
+                                violations: Vec::new(),
+                                probes: BTreeMap::new(),
+                                log_digest: 0,
+                                steps: step as usize,
+                                ingestions_ok: 0,
+                                faults_fired: 0,
+                                canary: Vec::new(),
+                                abstract_states: Vec::new(),
+                                harness_error: None,
+                                has_variant: desc.variant.is_some(),
+                                hung: true,
+                                output: None,
+                            };
+                            if clean {
+                                sum.violations.push(Violation {
+                                    invariant: "I3".into(),
+                                    key: format!("process-crash:{reason}:{phase_name}"),
+                                    step: step as usize,
+                                    observed: format!("the simulated process was killed ({reason}, exit {other:?}) in phase {phase_name} of step {step}, all calls so far had succeeded"),
+                                    expected: "after successful ingestion the library returns from every call".into(),
+                                });
+                            } else {
+                                sum.probes.insert(format!("post_fault_crash.{phase_name}"), 1);
+                            }
+                            mine.push(sum);
+                            next += stride;
+                            restarts += 1;
+                            if restarts >= MAX_HANGS_PER_SLICE {
+                                break;
+                            }
                         }
                     }
                 }
@@ -250,6 +313,58 @@ pub fn run_stage_emit(base_seed: u64, stage: &Stage, workers: usize, emit: bool)
 
 pub struct CheckResult {
     pub exit_code: i32,
+}
+
+/// Minimise in a child process: a candidate can drive typify into a stack
+/// overflow, which must not take the check down. If the child dies the
+/// unminimised run is reported.
+fn shrink_in_child(desc: &RunDesc, target: &shrink::Target) -> (RunDesc, shrink::ShrinkStats) {
+    let work = report::verif_root().join(".work");
+    let _ = std::fs::create_dir_all(&work);
+    let tag = format!("{}-{:x}", std::process::id(), fnv64(format!("{}{}{}", target.0, target.1, desc.seed).as_bytes()));
+    let inp = work.join(format!("shrink-in-{tag}.json"));
+    let outp = work.join(format!("shrink-out-{tag}.json"));
+    let fallback = (desc.clone(), shrink::ShrinkStats { executions: 0, accepted: 0 });
+    if std::fs::write(&inp, serde_json::to_string(&json!({"desc": desc, "invariant": target.0, "key": target.1})).unwrap()).is_err() {
+        return fallback;
+    }
+    let exe = match std::env::current_exe() {
+        Ok(e) => e,
+        Err(_) => return fallback,
+    };
+    let st = std::process::Command::new(exe).arg("shrink").arg(&inp).arg(&outp).stderr(std::process::Stdio::null()).status();
+    let result = match st {
+        Ok(s) if s.success() => std::fs::read_to_string(&outp)
+            .ok()
+            .and_then(|t| serde_json::from_str::<Value>(&t).ok())
+            .and_then(|v| {
+                let d: RunDesc = serde_json::from_value(v.get("desc")?.clone()).ok()?;
+                let execs = v.get("executions")?.as_u64()? as usize;
+                Some((d, shrink::ShrinkStats { executions: execs, accepted: 0 }))
+            })
+            .unwrap_or(fallback),
+        _ => fallback,
+    };
+    let _ = std::fs::remove_file(&inp);
+    let _ = std::fs::remove_file(&outp);
+    result
+}
+
+/// Body of the `shrink` subcommand (see `shrink_in_child`).
+pub fn shrink_cmd(inp: &str, outp: &str) -> i32 {
+    let Ok(text) = std::fs::read_to_string(inp) else { return 2 };
+    let Ok(v) = serde_json::from_str::<Value>(&text) else { return 2 };
+    let Ok(desc) = serde_json::from_value::<RunDesc>(v["desc"].clone()) else { return 2 };
+    let target = (
+        v["invariant"].as_str().unwrap_or("").to_string(),
+        v["key"].as_str().unwrap_or("").to_string(),
+    );
+    let (min, stats) = shrink::shrink(&desc, &target, 1500);
+    let out = json!({"desc": min, "executions": stats.executions});
+    if std::fs::write(outp, serde_json::to_string(&out).unwrap()).is_err() {
+        return 2;
+    }
+    0
 }
 
 fn replay_in_fresh_process(path: &PathBuf) -> Result<(i32, String), String> {
@@ -284,6 +399,38 @@ pub fn replay(path: &str) -> i32 {
     };
     if r.engine == "sessim-rustc" {
         return rustc_replay(&r);
+    }
+    if r.finding_key.starts_with("process-crash") && std::env::var("VERIF_REPLAY_CHILD").is_err() {
+        // the history takes the process down: execute it in a child and look at how it ends
+        let exe = std::env::current_exe().expect("current exe");
+        let st = std::process::Command::new(exe)
+            .arg("replay")
+            .arg(path)
+            .env("VERIF_REPLAY_CHILD", "1")
+            .stdout(std::process::Stdio::null())
+            .stderr(std::process::Stdio::piped())
+            .output();
+        return match st {
+            Ok(o) if o.status.code().is_none() || o.status.code() == Some(134) => {
+                let err = String::from_utf8_lossy(&o.stderr).to_string();
+                println!(
+                    "REPRODUCED I3 {}: child process killed ({:?}) {}",
+                    r.finding_key,
+                    o.status,
+                    err.lines().find(|l| l.contains("overflowed")).unwrap_or("")
+                );
+                println!("VIOLATION property={} replay={}", r.property, path);
+                1
+            }
+            Ok(o) => {
+                println!("NOT-REPRODUCED {} (child exit {:?})", r.finding_key, o.status.code());
+                0
+            }
+            Err(e) => {
+                eprintln!("HARNESS: {e}");
+                2
+            }
+        };
     }
     let (out, _hung) = exec::execute_watched(&r.run, std::time::Duration::from_secs(RUN_TIMEOUT_S));
     if let Some(h) = out.harness_error {
@@ -357,15 +504,23 @@ pub fn check(property: &str, tier: &str, base_seed: u64, workers: usize, runs_ov
                 return CheckResult { exit_code: 2 };
             }
         };
-        // determinism spot check: the first runs again, on one worker
-        let n_again = std::cmp::min(48, res.len());
-        for s in res.iter().take(n_again).filter(|s| !s.hung) {
-            let (_d, again) = run_one(s.seed, stage.focus, stage.faults, s.index);
-            if again.log_digest != s.log_digest {
-                harness_errors.push(format!(
-                    "non-deterministic run: stage {} seed {} digests {:x} vs {:x}",
-                    stage.name, s.seed, s.log_digest, again.log_digest
-                ));
+        // determinism spot check: the first runs again, in two other worker
+        // processes (a different partition of the indices)
+        let n_again = std::cmp::min(48, res.len()) as u64;
+        if n_again > 0 {
+            let again_stage = Stage { runs: n_again, ..stage.clone() };
+            match run_stage(base_seed, &again_stage, 2) {
+                Ok(again) => {
+                    for (a, b) in again.iter().zip(res.iter()) {
+                        if a.index == b.index && !a.hung && !b.hung && a.log_digest != b.log_digest {
+                            harness_errors.push(format!(
+                                "non-deterministic run: stage {} seed {} digests {:x} vs {:x}",
+                                stage.name, b.seed, b.log_digest, a.log_digest
+                            ));
+                        }
+                    }
+                }
+                Err(e) => harness_errors.push(format!("determinism re-run: {e}")),
             }
         }
         for s in &res {
@@ -550,12 +705,24 @@ pub fn check(property: &str, tier: &str, base_seed: u64, workers: usize, runs_ov
             continue;
         }
         let target = (inv.clone(), key.clone());
-        let (min, stats) = if processed > 12 {
+        let is_crash = key.starts_with("process-crash");
+        let (min, stats) = if processed > 12 || is_crash {
             (desc.clone(), shrink::ShrinkStats { executions: 0, accepted: 0 })
         } else {
-            shrink::shrink(&desc, &target, 1500)
+            shrink_in_child(&desc, &target)
         };
-        let (out, _hung) = exec::execute_watched(&min, std::time::Duration::from_secs(RUN_TIMEOUT_S));
+        let crash_violation = Violation {
+            invariant: inv.clone(),
+            key: key.clone(),
+            step: 0,
+            observed: "the simulated process is killed while executing this history (see the replay)".into(),
+            expected: "after successful ingestion the library returns from every call".into(),
+        };
+        let (out, _hung) = if is_crash {
+            (exec::Outcome { violations: vec![crash_violation], ..Default::default() }, false)
+        } else {
+            exec::execute_watched(&min, std::time::Duration::from_secs(RUN_TIMEOUT_S))
+        };
         let Some(v) = out.violations.iter().find(|v| v.invariant == *inv && v.key == *key) else {
             eprintln!("HARNESS: minimised run for {inv}:{key} (seed {seed}) does not reproduce in-process");
             return CheckResult { exit_code: 2 };
@@ -912,7 +1079,7 @@ pub fn normalise_rustc_message(text: &str) -> String {
             return;
         }
         let b = w.as_bytes();
-        let generated = (b.len() > 2 && b[0] == b'K' && b[1].is_ascii_lowercase() && b[2].is_ascii_uppercase())
+        let generated = (b.len() > 2 && (b[0] == b'K' || b[0] == b'X') && b[1].is_ascii_lowercase() && b[2].is_ascii_uppercase())
             || w.starts_with("Hint")
             || (w.starts_with("Rt") && w.ends_with("Root"))
             || (b[0] == b'Q' && b.len() > 1 && b[1].is_ascii_digit());
